@@ -56,7 +56,51 @@ class _FStringToFormat(ast.NodeTransformer):
         return ast.copy_location(call, node)
 
 
+class _LocalAnnAssignToAssign(ast.NodeTransformer):
+    """
+    Inside a function body `x: T = v` is `x = v` (the annotation of a local is never evaluated) and a bare `x: T`
+    is nothing at all. Read them that way, so that adding or removing local type annotations changes nothing the
+    rules see. Module- and class-level annotations ARE evaluated at import time and are left alone.
+    """
+
+    def __init__(self):
+        self.depth = 0
+
+    def _func(self, node):
+        self.depth += 1
+        self.generic_visit(node)
+        self.depth -= 1
+        return node
+
+    visit_FunctionDef = _func
+    visit_AsyncFunctionDef = _func
+
+    def visit_ClassDef(self, node):
+        # a class body nested in a function is still a class body: its annotations are evaluated
+        d, self.depth = self.depth, 0
+        self.generic_visit(node)
+        self.depth = d
+        return node
+
+    def visit_AnnAssign(self, node):
+        self.generic_visit(node)
+        if self.depth == 0 or not isinstance(node.target, (ast.Name, ast.Attribute, ast.Subscript)):
+            return node
+        if node.value is None:
+            return ast.copy_location(ast.Pass(), node) if isinstance(node.target, ast.Name) else node
+        return ast.copy_location(ast.Assign(targets=[node.target], value=node.value), node)
+
+
 _CONST_NAME = None
+
+
+def _pure_string_literal(v):
+    """a string literal, or a tuple (of tuples ...) of string literals — a value with no identity and no mutability"""
+    if isinstance(v, ast.Constant):
+        return isinstance(v.value, str)
+    if isinstance(v, ast.Tuple) and v.elts:
+        return all(_pure_string_literal(e) for e in v.elts)
+    return False
 
 
 def _inline_module_string_constants(tree):
@@ -80,7 +124,7 @@ def _inline_module_string_constants(tree):
             t, v = s.target, s.value
         else:
             continue
-        if _CONST_NAME.match(t.id) and isinstance(v, ast.Constant) and isinstance(v.value, str):
+        if _CONST_NAME.match(t.id) and _pure_string_literal(v):
             cands.setdefault(t.id, []).append(v)
     if not cands:
         return
@@ -107,7 +151,9 @@ def _inline_module_string_constants(tree):
     class Inl(ast.NodeTransformer):
         def visit_Name(self, n):
             if isinstance(n.ctx, ast.Load) and n.id in consts:
-                return ast.copy_location(ast.Constant(value=consts[n.id].value), n)
+                import copy
+
+                return ast.copy_location(copy.deepcopy(consts[n.id]), n)
             return n
 
     Inl().visit(tree)
@@ -137,6 +183,7 @@ class Mod(object):
         self.source = source
         self.tree = _FStringToFormat().visit(ast.parse(source, filename=path))
         _inline_module_string_constants(self.tree)
+        _LocalAnnAssignToAssign().visit(self.tree)
         ast.fix_missing_locations(self.tree)
         self.top = {}
         self.parents = {}
